@@ -258,6 +258,7 @@ INVARIANT PartitionG
 INVARIANT RefsG
 INVARIANT OrderFreeG
 INVARIANT Agrees
+INVARIANT LayoutG
 PROPERTY Terminates
 CHECK_DEADLOCK FALSE
 """
@@ -268,7 +269,7 @@ MCR_POLICY = {"exact": [("exact", 0)], "p50": [("percent", 50)], "n1": [("number
 def mc_registry(chk, universe, emit=True, timeout=3000):
     r = chk.model_check("MC_Registry", CFG_REGISTRY % (universe, "TRUE" if emit else "FALSE"),
                         "registry pipeline state machine (generate, register, closure passes, group merges, final optimise), universe %s: "
-                        "SoundG TightG NormalG PartitionG RefsG OrderFreeG Agrees, Terminates" % universe, timeout=timeout)
+                        "SoundG TightG NormalG PartitionG RefsG OrderFreeG Agrees LayoutG (the reached graphs through Layout.tla), Terminates" % universe, timeout=timeout)
     out = []
     if emit:
         for t in tlc.printed_tuples(r["out"], "B"):
